@@ -717,12 +717,12 @@ func multisets(n, maxK int, yield func([]int) bool) bool {
 // triangles and segments come in all sizes: inside one octant, straddling the centre, spanning the cube,
 // axis-aligned (flat boxes), degenerate (collinear triples).
 var cornerSet = []int{
-	0,          // (0,0,0)
-	9, 3, 1,    // (1,0,0) (0,1,0) (0,0,1)
+	0,       // (0,0,0)
+	9, 3, 1, // (1,0,0) (0,1,0) (0,0,1)
 	26,         // (2,2,2)
 	17, 23, 25, // (1,2,2) (2,1,2) (2,2,1)
-	13,         // (1,1,1)
-	18,         // (2,0,0)
+	13, // (1,1,1)
+	18, // (2,0,0)
 }
 
 func subsetsOf(points []int, size int) [][]int {
